@@ -1269,6 +1269,12 @@ class UTPM(Ring, RawAlgorithmsMixIn):
     @classmethod
     def pb_sum(cls, ybar, x, y, axis, dtype, out2, out = None):
 
+        # direct callers pass (ybar, x, y, axis, dtype, out2); the tracer calls every pullback
+        # as pb_f(ybar, *recorded args, y), i.e. (ybar, x, axis, dtype, out, y): accept both
+        # orders (with the second one `axis` was read from `dtype`, always None)
+        if isinstance(out2, cls) and not isinstance(y, cls):
+            y, axis, dtype, out2 = out2, y, axis, dtype
+
         if out is None:
             D,P = x.data.shape[:2]
             xbar = x.zeros_like()
